@@ -3549,12 +3549,13 @@ impl KotoVm {
                         }
                         StringAlignment::Left => rendered + &fill.repeat(fill_chars),
                         StringAlignment::Center => {
-                            let half_fill_chars = fill_chars as f32 / 2.0;
+                            let fill_before = fill_chars / 2;
+                            let fill_after = fill_chars - fill_before;
                             format!(
                                 "{}{}{}",
-                                fill.repeat(half_fill_chars.floor() as usize),
+                                fill.repeat(fill_before),
                                 rendered,
-                                fill.repeat(half_fill_chars.ceil() as usize),
+                                fill.repeat(fill_after),
                             )
                         }
                         StringAlignment::Right => fill.repeat(fill_chars) + &rendered,
